@@ -447,6 +447,15 @@ def run_history(ctx, path, obs, config, actions):
         ctx.count("dbapi_events", len(events))
     finally:
         eng.dispose()
+        if env.mon.failed:
+            # a reported history stops in the middle: do not let its abandoned connections
+            # keep file locks into the next history
+            gc.collect()
+            for sc in list(env.spy.open.values()):
+                try:
+                    sc.raw.close()
+                except Exception:  # noqa: BLE001
+                    pass
     ctx.count("histories")
     ctx.case({"config": config, "users": actions}, nontrivial=env.mon.judged_dirty >= 1)
     if ctx.evaluations <= 3:
